@@ -36,12 +36,23 @@ type c12Forge struct {
 	Mut *jsonmut.Mutation `json:"mut,omitempty"`
 }
 
+// c12Foreign is an entry of the credential map handed to ResolveConstraintsFields whose key is not a descriptor of
+// this definition (auth/api/iam merges the maps of all submissions and hands the merged map to every definition).
+type c12Foreign struct {
+	ID   string `json:"id"`
+	Cred int    `json:"cred"` // wallet index (modulo)
+}
+
 type c12Case struct {
 	Def    json.RawMessage `json:"def"`
 	Wallet []c12Cred       `json:"wallet"`
 	Env    string          `json:"env"`   // ld | jwt | ld-array | jwt-array
 	Extra  int             `json:"extra"` // array envelopes: 0 = alone, 1 = extra VP after, 2 = extra VP before
 	Forge  []c12Forge      `json:"forge"`
+	// O6: foreign entries added to the credential map, and how often each ResolveConstraintsFields call is repeated
+	// (the function ranges over a map: a defect may depend on iteration order)
+	Foreign []c12Foreign `json:"foreign,omitempty"`
+	Repeat  int          `json:"repeat,omitempty"`
 }
 
 var (
@@ -848,6 +859,14 @@ func c12Gen(t *rapid.T) c12Case {
 	if strings.HasSuffix(c.Env, "-array") {
 		c.Extra = rapid.IntRange(0, 2).Draw(t, "extra")
 	}
+	nForeign := rapid.SampledFrom([]int{1, 0, 2, 3}).Draw(t, "nForeign")
+	for i := 0; i < nForeign; i++ {
+		c.Foreign = append(c.Foreign, c12Foreign{
+			ID:   rapid.SampledFrom([]string{"other-definition-org", "other-definition-user", "d0 ", "D0", ""}).Draw(t, "foreign.id"),
+			Cred: rapid.IntRange(0, 5).Draw(t, "foreign.cred"),
+		})
+	}
+	c.Repeat = rapid.IntRange(8, 16).Draw(t, "repeat")
 	nForge := rapid.IntRange(1, 4).Draw(t, "nForge")
 	for i := 0; i < nForge; i++ {
 		c.Forge = append(c.Forge, c12GenForge(t))
